@@ -1,13 +1,51 @@
 package vc
 
 import (
+	"flag"
 	"fmt"
 	"os"
+	"path/filepath"
+	"regexp"
+	"sort"
+	"strings"
+	"time"
 )
 
 var RepoDir = "/repo"
+var VerifDir = "/verif"
+
+func LoadSpecs() (*SpecDB, error) {
+	db := NewSpecDB()
+	for _, f := range []struct{ path, pkg string }{
+		{filepath.Join(RepoDir, "contracts_verif.go"), "crypto"},
+		{filepath.Join(RepoDir, "hash", "contracts_verif.go"), "hash"},
+		{filepath.Join(RepoDir, "random", "contracts_verif.go"), "random"},
+	} {
+		if _, err := os.Stat(f.path); err != nil {
+			continue
+		}
+		if err := db.LoadFile(f.path, f.pkg); err != nil {
+			return nil, err
+		}
+	}
+	ts, _ := filepath.Glob(filepath.Join(VerifDir, "contracts", "trusted", "*.spec"))
+	sort.Strings(ts)
+	for _, t := range ts {
+		if err := db.LoadFile(t, ""); err != nil {
+			return nil, err
+		}
+	}
+	if len(db.Errors) > 0 {
+		return db, fmt.Errorf("contract errors:\n  %s", strings.Join(db.Errors, "\n  "))
+	}
+	return db, nil
+}
 
 func Main(args []string) int {
+	os.Setenv("PATH", "/opt/veriftools/go1.26.8/bin:"+os.Getenv("PATH")+":/usr/local/bin:/usr/bin:/bin:/opt/veriftools/pyvenv/bin")
+	for _, kv := range [][2]string{{"GOTOOLCHAIN", "local"}, {"GOFLAGS", "-mod=mod"}, {"GOPROXY", "off"}, {"GOSUMDB", "off"}, {"CGO_ENABLED", "1"}, {"GOWORK", "off"}} {
+		os.Setenv(kv[0], kv[1])
+	}
 	switch args[0] {
 	case "list":
 		P, err := Load(RepoDir, "verif")
@@ -20,7 +58,111 @@ func Main(args []string) int {
 			fmt.Printf("%s\t%d blocks\n", k, len(f.Blocks))
 		}
 		return 0
+	case "verify":
+		return cmdVerify(args[1:])
+	case "check":
+		return cmdCheck(args[1:])
+	case "replay":
+		b, err := os.ReadFile(args[1])
+		if err != nil {
+			fmt.Fprintln(os.Stderr, err)
+			return 2
+		}
+		os.Stdout.Write(b)
+		return 0
 	}
 	fmt.Fprintln(os.Stderr, "unknown command", args[0])
 	return 2
 }
+
+// cmdVerify is the developer entry point: verify the functions whose key matches a regexp.
+func cmdVerify(args []string) int {
+	fs := flag.NewFlagSet("verify", flag.ExitOnError)
+	timeout := fs.Duration("timeout", 10*time.Second, "per-obligation timeout")
+	keep := fs.String("keep", "", "directory to keep failing queries in")
+	tags := fs.String("tags", "verif", "build tags")
+	verbose := fs.Bool("v", false, "list every obligation")
+	dump := fs.Bool("dump", false, "print the generated commands")
+	fs.Parse(args)
+	re := regexp.MustCompile(fs.Arg(0))
+	P, err := Load(RepoDir, *tags)
+	if err != nil {
+		fmt.Fprintln(os.Stderr, err)
+		return 2
+	}
+	db, err := LoadSpecs()
+	if err != nil {
+		fmt.Fprintln(os.Stderr, err)
+		return 2
+	}
+	var rs []*FuncResult
+	for _, k := range P.SortedFuncKeys() {
+		if !re.MatchString(k) {
+			continue
+		}
+		spec := db.Funcs[k]
+		if spec != nil && spec.Trusted {
+			continue
+		}
+		r := GenFunc(P, db, P.Funcs[k], spec)
+		rs = append(rs, r)
+		if *dump {
+			for _, d := range r.Decls {
+				fmt.Println(d)
+			}
+			for i, c := range r.Cmds {
+				fmt.Printf("%4d %s\n", i, c)
+			}
+			for _, o := range r.Obls {
+				fmt.Printf("OBL %s prefix=%d goal=%s\n", o.Name, o.Prefix, o.Goal)
+			}
+		}
+	}
+	dir := *keep
+	if dir == "" {
+		dir, _ = os.MkdirTemp("", "vcheck-")
+		defer os.RemoveAll(dir)
+	} else {
+		os.MkdirAll(dir, 0o755)
+	}
+	stats := &SolveStats{BySolver: map[string]int{}}
+	t0 := time.Now()
+	Discharge(rs, dir, *timeout, 16, stats)
+	bad := 0
+	for _, r := range rs {
+		if r.Skipped != "" {
+			fmt.Printf("SKIP %s: %s\n", r.Key, r.Skipped)
+			continue
+		}
+		n, ok := 0, 0
+		for _, o := range r.Obls {
+			if o.Canary {
+				if o.Result == "unsat" {
+					fmt.Printf("  VACUOUS %s (%s)\n", o.Name, o.Pos)
+					bad++
+				}
+				continue
+			}
+			n++
+			if o.Result == "unsat" {
+				ok++
+				if *verbose {
+					fmt.Printf("  ok   %-60s %s %.2fs %s\n", o.Name, o.Solver, o.Seconds, o.Pos)
+				}
+			} else {
+				bad++
+				fmt.Printf("  FAIL %-60s %s [%s] %s\n", o.Name, o.Result, o.Solver, o.Pos)
+			}
+		}
+		fmt.Printf("%s: %d/%d discharged (mode %s, %d loops)\n", r.Key, ok, n, r.Mode, r.Loops)
+		for _, w := range r.Warnings {
+			fmt.Printf("  warning: %s\n", w)
+		}
+	}
+	fmt.Printf("queries=%d solver_seconds=%.1f wall=%.1fs by=%v\n", stats.Queries, stats.Seconds, time.Since(t0).Seconds(), stats.BySolver)
+	if bad > 0 {
+		return 1
+	}
+	return 0
+}
+
